@@ -14,6 +14,11 @@ the model runner prints `<compared>` only):
   SV m=.. kh= kq= kc= cx= ca= cq= cc= sq= mh= url=<template>  download -> SV <status> none|served:<k>
   INFLIGHT <fid> <kind> <n>     the fs handler's Upload (os.Create + StartUpload + copy) WITHOUT FinishUpload:
                                 an upload that is running / was abandoned          -> INFLIGHT ok
+  SYSLOAD / P2P <t> <u1> <u2> <want1> <want2> / MEMBER <t> <owner> <u> <want> <given|-> / PUBX <sess> <as> <t|sys> <k|-> <flags|-> <tpls> / AGE <hours>
+                                publishes with attachment lists by senders of every mode shape (write-only by want or
+                                by given, reader+writer, reader only, owner, root on behalf of another user, posts to
+                                'sys' without a subscription), the k-th adapter call of the request failing, ageing;
+                                answer PUBX saved= res= marked= calls=<the adapter calls messagesMapper.Save made>
   USER/NEWACC/TOPIC/PUB/TAV/UAV/DELMSG/DELTOPIC/DELUSER/GC/DUMP      history of the link / GC part
      (NEWACC = {acc user="new"} with attachments from a session that is not logged in; TOPIC = {sub topic="new"};
       TAV / UAV = {set desc} on a group topic / on "me"; DELUSER of an owner removes its topics and their messages)
@@ -43,6 +48,7 @@ LAWS = {
     "linked-while-referenced": "a file listed with an accepted publish / avatar update stays linked and stored while the message / topic / user exists",
     "c16-attachment-link-all-or-nothing": "a stored message is left without links to its existing attachments because another listed attachment does not exist",
     "nothing-else-removed": "upload records and bytes disappear only through GC runs or failed uploads",
+    "linked-never-removed": "an attachment listed with an accepted message - whoever sent it: write-only subscriber, owner, root on behalf of a user, a post to 'sys' - is not garbage-collected (record and bytes) after the grace period while the message exists",
     "url-names-upload": "a URL yields an id only if its cleaned path is [serve prefix or nothing] + an 11-character name from [-_A-Za-z0-9] followed by nothing or a character outside that class",
     "no-panic": "the code under test panicked",
 }
@@ -502,6 +508,125 @@ def history_cases(g, count, length):
         g.add("DUMP")
 
 
+# ---------------------------------------------------------------- senders of every mode shape (messagesMapper.Save)
+# (want, given set by the owner or "-" = the topic's default JRWPS)
+MODES_C16B = {
+    "wonly": [("JWP", "-"), ("JW", "-"), ("JWPS", "-"), ("JRWPS", "JWP"), ("JRWP", "JW"), ("JWP", "JWPS")],
+    "rw": [("JRWPS", "-"), ("JRWP", "JRWPS"), ("JRW", "-")],
+    "ronly": [("JRP", "-"), ("JRWPS", "JRP")],
+}
+
+
+def sender_mode_cases_c16b(g, count, length):
+    """histories in which the message with the attachment list comes from every kind of sender; every publish is
+    followed by a dump, and the grace period + the garbage collector's own call come back regularly"""
+    rng = g.rng
+    g.add("SYSLOAD")
+    npub = sum(1 for l in g.lines if l.startswith("PUB"))
+    g.starts_c16b = []
+    for h in range(count):
+        g.starts_c16b.append(len(g.lines))          # each of these histories stands alone (users, uploads, topic of its own)
+        base = g.nuser = max(g.nuser, 2) + 1
+        a, b, c, o = base, base + 1, base + 2, base + 3
+        g.nuser = base + 3
+        for u in (a, b, c, o):
+            g.add("USER %d" % u)
+        files = [g.good_up(body="form:%d:1:1" % rng.choice([1300, 1800])) for _ in range(3)]
+        g.ntopic += 1
+        t = g.ntopic
+        owner = rng.choice([1, a])
+        g.add("TOPIC %d %d %s" % (t, owner, g.tpl(rng.choice(files)) if rng.random() < 0.3 else "-"))
+        members = [u for u in (1, a, b, c) if u != owner]      # maxSubscriberCount = 4
+        shape = {owner: "owner"}
+        for u in members:
+            kind = "rw" if u == 1 else rng.choice(["wonly", "wonly", "wonly", "rw", "ronly"])
+            want, given = rng.choice(MODES_C16B[kind])
+            shape[u] = kind
+            g.add("MEMBER %d %d %d %s %s" % (t, owner, u, want, given))
+        # a p2p topic between two users of its own (kept: deleting a party has its own cascade)
+        p, q = g.nuser + 1, g.nuser + 2
+        g.nuser += 2
+        g.add("USER %d" % p)
+        g.add("USER %d" % q)
+        g.ntopic += 1
+        tp2p = g.ntopic
+        shape[p], shape[q] = rng.choice(["wonly", "wonly", "rw"]), rng.choice(["wonly", "rw", "ronly"])
+        p2pwant = {"wonly": ["JWP", "JW", "JWPA"], "rw": ["JRWPA", "JRWP"], "ronly": ["JRP", "JRPA"]}
+        g.add("P2P %d %d %d %s %s" % (tp2p, p, q, rng.choice(p2pwant[shape[p]]), rng.choice(p2pwant[shape[q]])))
+        g.add("DUMP")
+
+        likely = []          # uploads listed with a publish that is probably accepted: they stay when the GC has run
+
+        def attachments(accepted):
+            r = rng.random()
+            if r < 0.08:
+                return "-"
+            ks = [rng.choice(files) for _ in range(rng.choice([1, 1, 1, 2]))]
+            if accepted:
+                likely.extend(ks)
+            tp = [g.tpl(k) for k in ks]
+            if rng.random() < 0.15:
+                tp.insert(rng.randrange(len(tp) + 1), g.bad_tpl())      # names nothing: skipped by Save
+            return ",".join(tp)
+
+        forced = []
+
+        def fault():
+            if forced:
+                return forced.pop()
+            return str(rng.choice([1, 2, 3, 3, 4, 4])) if rng.random() < 0.12 else "-"
+
+        # every shape at least once, then a random tail
+        script = [("p2p", p), ("p2p", q), ("selffault", owner)] + [("self", u) for u in [owner] + members] + [("obo", rng.choice([a, b, c])), ("sys", rng.choice([a, b, c, o])),
+                                                              ("sysobo", rng.choice([a, b, c, o])), ("gc", 0)]
+        rng.shuffle(script)
+        for step in range(length):
+            if step < len(script):
+                what, u = script[step]
+            else:
+                r = rng.random()
+                what, u = (("p2p", rng.choice([p, q])) if r < 0.12 else
+                           ("self", rng.choice([owner] + members)) if r < 0.40 else
+                           ("obo", rng.choice([a, b, c, o])) if r < 0.52 else
+                           ("sys", rng.choice([a, b, c, o, 1])) if r < 0.66 else
+                           ("sysobo", rng.choice([a, b, c, o])) if r < 0.72 else
+                           ("up", 0) if r < 0.80 else ("delmsg", 0) if r < 0.86 else ("gc", 0))
+            if what == "selffault":
+                # the owner reads and writes: call 3 is SubsUpdate (its failure is ignored), call 4 links the attachments
+                what = "self"
+                forced.append(str(rng.choice([3, 3, 4])))
+            if what in ("self", "obo", "sys", "sysobo", "p2p"):
+                f = fault()
+                on_sys = what in ("sys", "sysobo")
+                ok = f == "-" and (on_sys or shape.get(u, "none") in ("owner", "wonly", "rw"))
+                g.add("PUBX %d %d %s %s %s %s" % (u if what in ("self", "sys", "p2p") else 1, u,
+                                                  "sys" if on_sys else str(tp2p if what == "p2p" else t), f,
+                                                  rng.choice(["-", "-", "-", "n", "h", "nh"]), attachments(ok)))
+                npub += 1
+            elif what == "up":
+                files.append(g.inflight() if rng.random() < 0.15 else g.good_up(body="form:%d:1:1" % rng.choice([1300, 1800])))
+            elif what == "delmsg":
+                ks = sorted({rng.randrange(max(1, npub - 10), npub + 1) for _ in range(2)})
+                g.add("DELMSG %d %d %s" % (owner, t, ",".join(map(str, ks))))
+            else:
+                # the grace period passes; then exactly what largeFileRunGarbageCollection calls
+                g.add("AGE %d" % rng.choice([2, 2, 3, 24]))
+                g.add("GC past %d" % rng.choice([100, 100, 0, 1]))
+                g.add("DUMP")
+                # what was not linked is gone now: go on with the uploads that were listed, and two new ones
+                files = sorted(set(likely)) + [g.good_up(body="form:%d:1:1" % rng.choice([1300, 1800])) for _ in range(2)]
+            g.add("DUMP")
+        g.add("AGE 2")
+        g.add("GC past 0")
+        g.add("DUMP")
+        g.add("DELTOPIC %d %d" % (owner, t))
+        for u in (a, b, c, o):
+            g.add("DELUSER %d" % u)
+        g.add("DUMP")
+        g.add("GC zero 0")
+        g.add("DUMP")
+
+
 def delmsg_indices(g):
     """DELMSG lines were generated with random publish numbers; nothing to fix up: the driver
     and the runner both ignore numbers that are not publishes of that topic."""
@@ -539,6 +664,8 @@ def monitors(lines, answers):
     pub_topic = {}
     pending_gc = None
     pending = None            # op between two dumps: (kind, ...) for nothing-else-removed
+    made = set()              # uploads that left a record (by request number)
+    aged = set()              # ... and were made before an AGE line (the generator ages by two hours or more)
     import re
     cleaned = {}
     for line, ans in zip(lines, answers):
@@ -587,6 +714,8 @@ def monitors(lines, answers):
                 pass        # a FAILED upload (store failure): the record stays for the GC, as the property says
             elif status != "200" and status != "CRASH" and worked:
                 fails.append(("refused-no-effect", i, "status %s but effect %s" % (status, effect)))
+            if w[0] == "UP" and effect in ("stored", "residue", "residue-nobytes"):
+                made.add(d.get("fid"))
             if w[0] == "UP" and d["body"].startswith("form:"):
                 tot, lim = int(d["body"].split(":")[1]), int(d["lim"])
                 if lim > 0 and tot > lim and (worked or status == "200"):
@@ -606,6 +735,12 @@ def monitors(lines, answers):
                 npub += 1
                 pub_topic[npub] = w[2]
                 pending = ("PUB", i, npub, side.get("code"))
+        elif w[0] == "INFLIGHT":
+            if a[1:2] == ["ok"]:
+                made.add(w[1])
+        elif w[0] == "AGE":
+            # every upload record made so far is now at least two hours old: past the grace period
+            aged |= made
         elif w[0] == "GC":
             pending_gc = (i, w[1], int(w[2]), side.get("gonerec", ""), int(side.get("gonefiles", "0")))
         elif w[0] == "DUMP":
@@ -633,7 +768,7 @@ def monitors(lines, answers):
                         fails.append(("gc-exact", gi, "GC removed linked uploads %s" % sorted(removed - unlinked)))
                     if gonefiles != len(removed & pd):
                         fails.append(("gc-exact", gi, "%d records with bytes removed but %d files deleted" % (len(removed & pd), gonefiles)))
-                    want = set() if kind == "past" else unlinked
+                    want = (unlinked & aged) if kind == "past" else unlinked
                     n = len(want) if lim <= 0 else min(lim, len(want))
                     if len(removed) != n:
                         fails.append(("gc-exact", gi, "GC(%s, limit %d) removed %d of %d collectable uploads" % (kind, lim, len(removed), len(want))))
@@ -651,6 +786,7 @@ def history_expectations(g, lines, answers):
     fails = []
     exist = set()          # uploads with a record (from DUMP)
     held = {}              # link text -> line index
+    owed = {}              # the same obligations, kept after a missing link row was reported: for the GC law
     npub = 0
     pub_topic = {}
     topic_owner = {}
@@ -664,6 +800,14 @@ def history_expectations(g, lines, answers):
             d = kvs(cmp_)
             files = dict(x.split(":") for x in d["files"].split(",")) if d["files"] != "-" else {}
             links = set(d["links"].split(",")) if d["links"] != "-" else set()
+            if i > 0 and lines[i - 1].startswith("GC "):
+                # the GC law: an attachment of an accepted, still existing message survives the collector
+                for l, at in list(owed.items()):
+                    if l.split(">")[0] not in files:
+                        fails.append(("linked-never-removed", i - 1,
+                                      "upload %s, listed with the accepted message of line %d (%s), was garbage-collected by %s while the message exists"
+                                      % (l.split(">")[0], at, lines[at][:70], lines[i - 1])))
+                        del owed[l]
             for l, at in list(held.items()):
                 if l not in links:
                     fails.append(("linked-while-referenced", i, "link %s established by line %d (%s) is gone" % (l, at, lines[at][:70])))
@@ -674,22 +818,25 @@ def history_expectations(g, lines, answers):
             exist = {k for k, s in files.items()}
             done = {k for k, s in files.items() if s == "1"}
             continue
-        if w[0] not in ("PUB", "TAV", "UAV", "TOPIC", "NEWACC", "DELMSG", "DELTOPIC", "DELUSER"):
+        if w[0] not in ("PUB", "PUBX", "TAV", "UAV", "TOPIC", "NEWACC", "DELMSG", "DELTOPIC", "DELUSER"):
             continue
         named = []
-        tpls = w[-1] if w[0] in ("PUB", "TAV", "UAV", "TOPIC", "NEWACC") else "-"
+        tpls = w[-1] if w[0] in ("PUB", "PUBX", "TAV", "UAV", "TOPIC", "NEWACC") else "-"
         if tpls != "-":
             named = [g.names.get(t) for t in tpls.split(",")]
-        if w[0] == "PUB":
+        if w[0] in ("PUB", "PUBX"):
             if cmp_.split()[1] != "saved=1":
                 continue
             npub += 1
-            pub_topic[npub] = w[2]
+            pub_topic[npub] = w[2] if w[0] == "PUB" else w[3]
             ks = [k for k in named if k is not None]
             if side.get("code") == "202":
                 for k in ks:
                     if k in exist:
                         held["%s>m%d" % (k, npub)] = i
+                        owed["%s>m%d" % (k, npub)] = i
+            elif w[0] == "PUBX" and w[4] != "-":
+                pass        # an adapter call was made to fail: a store failure, not a refusal of the attachments
             elif any(k in exist for k in ks):
                 fails.append(("c16-attachment-link-all-or-nothing", i,
                               "message %d stored (reply %s) but its existing attachments %s are not linked" % (npub, side.get("code"), [k for k in ks if k in exist])))
@@ -706,20 +853,23 @@ def history_expectations(g, lines, answers):
             if cmp_.split()[1] == "200":
                 for ks in w[3].split(","):
                     if pub_topic.get(int(ks)) == w[2]:
-                        for l in [l for l in held if l.endswith(">m" + ks)]:
-                            del held[l]
+                        for hd in (held, owed):
+                            for l in [l for l in hd if l.endswith(">m" + ks)]:
+                                del hd[l]
         elif w[0] == "DELTOPIC":
-            for l in list(held):
-                tg = l.split(">")[1]
-                if tg == "t" + w[2] or (tg[0] == "m" and pub_topic.get(int(tg[1:])) == w[2]):
-                    del held[l]
+            for hd in (held, owed):
+                for l in list(hd):
+                    tg = l.split(">")[1]
+                    if tg == "t" + w[2] or (tg[0] == "m" and pub_topic.get(int(tg[1:])) == w[2]):
+                        del hd[l]
         elif w[0] == "DELUSER":
             # the account, the topics it owns and the messages in them are gone
-            for l in list(held):
-                tg = l.split(">")[1]
-                if tg == "u" + w[1] or (tg[0] == "t" and topic_owner.get(tg[1:]) == w[1]) or \
-                        (tg[0] == "m" and topic_owner.get(pub_topic.get(int(tg[1:]))) == w[1]):
-                    del held[l]
+            for hd in (held, owed):
+                for l in list(hd):
+                    tg = l.split(">")[1]
+                    if tg == "u" + w[1] or (tg[0] == "t" and topic_owner.get(tg[1:]) == w[1]) or \
+                            (tg[0] == "m" and topic_owner.get(pub_topic.get(int(tg[1:]))) == w[1]):
+                        del hd[l]
     return fails
 
 
@@ -1041,11 +1191,17 @@ def run(ctx):
         sql_only = "sql_case" in rp["replay"]
         lines = ["USER 1"] if sql_only else (rp["replay"].get("lines") or [rp["replay"]["case"]])
         g = None
+        if rp["replay"].get("names") is not None:
+            # which upload each URL template of the replayed lines names: the link laws are evaluated on the replay too
+            class NamesC16b:
+                names = rp["replay"]["names"]
+            g = NamesC16b()
     else:
         pure = list(dict.fromkeys(url_cases(ctx) + fa_cases(ctx)))
         g = Gen(ctx)
         gate_cases(g)
         history_cases(g, 12 if quick else 400, 40 if quick else 45)
+        sender_mode_cases_c16b(g, 8 if quick else 250, 16 if quick else 22)
         # USER 1 must come before the FA lines (they authenticate as user 1)
         lines = ["USER 1"] + pure + g.lines[1:]
     rc, impl, err = run_impl(ctx, lines)
@@ -1070,9 +1226,29 @@ def run(ctx):
             maker[l.split()[1]] = l
     tpl_re = _re.compile(r"(?:^|\+)[fF](\d+)")
 
+    starts_c16b = [len(pure) + j for j in getattr(g, "starts_c16b", [])] if not ctx.replay else []
+
+    def with_names(rp):
+        """the upload each URL template of the replay names (None: names nothing), for the link laws"""
+        if g is not None:
+            nm = {}
+            for l in rp.get("lines", []):
+                if l.split(None, 1)[0] in ("PUB", "PUBX", "TAV", "UAV", "TOPIC", "NEWACC") and l.split()[-1] != "-":
+                    for t in l.split()[-1].split(","):
+                        nm[t] = g.names.get(t)
+            rp["names"] = nm
+        return rp
+
     def prefix(i):
         """replay of a stateful line = all stateful lines up to it"""
         k0 = lines[i].split(None, 1)[0]
+        s0 = max([j for j in starts_c16b if j <= i], default=None)
+        if s0 is not None:
+            # a sender-mode history: its own lines, up to the dump that follows the failing line
+            e = i
+            while e + 1 < len(lines) and lines[e] != "DUMP":
+                e += 1
+            return with_names({"case": lines[i], "lines": ["USER 1", "USER 2", "SYSLOAD"] + lines[s0:e + 1]})
         if k0 in ("CL", "ID"):
             return {"case": lines[i]}
         if k0 == "FA":
@@ -1085,7 +1261,7 @@ def run(ctx):
         n = bisect.bisect_right(stateful_idx, i)
         # setup (users, fixtures) + the tail; uploads made in the cut part are then unknown ids
         idx = stateful_idx[:n] if n <= 3060 else stateful_idx[:60] + stateful_idx[n - 3000:n]
-        return {"case": lines[i], "lines": [lines[j] for j in idx]}
+        return with_names({"case": lines[i], "lines": [lines[j] for j in idx]})
 
     fails = monitors(lines, impl) + (history_expectations(g, lines, impl) if g is not None else [])
     known = {f["key"] for f in ctx.load_findings() if f["property"] == ctx.pid}
@@ -1142,7 +1318,7 @@ def run(ctx):
         c = a.split(" |")[0].split()
         o = k + ":" + (" ".join(c[1:3]) if k in ("UP", "SV") else ("0" if c[1:] in (["0"], ["-"]) else "x") if k in ("ID", "FA") else "")
         outs[o] = outs.get(o, 0) + 1
-        if (k == "ID" and c[1] != "0") or (k in ("UP", "SV") and c[2] != "none") or k in ("PUB", "TAV", "UAV", "NEWACC", "GC", "DELMSG", "DELTOPIC", "DELUSER", "INFLIGHT") \
+        if (k == "ID" and c[1] != "0") or (k in ("UP", "SV") and c[2] != "none") or k in ("PUB", "PUBX", "MEMBER", "P2P", "TAV", "UAV", "NEWACC", "GC", "DELMSG", "DELTOPIC", "DELUSER", "INFLIGHT") \
                 or (k == "FA" and c[1] == "1") or (k == "CL" and c[1] != l.split()[1]):
             nontrivial.add(l)
     ctx.coverage.update({
@@ -1153,8 +1329,12 @@ def run(ctx):
                 "four limits, non-form / no-file / empty-file bodies, four media-handler configurations, three injected faults (create / StartUpload / FinishUpload), uploads stopped between StartUpload and FinishUpload and downloads of them by every URL shape, 15 content kinds, every URL shape per fixture; "
                 "%d seeded histories of uploads, publishes with attachment lists, topic and account avatar updates, hard message deletion, topic and user deletion and GC runs "
                 "(DeleteUnused with future / past / zero bound and limits), each followed by a dump of memverif's file and link tables and the directory listing; "
+                "%d seeded sender-mode histories: a group topic (owner = root or a user) with members that write without reading (by want or by given), read and write, or only read, a p2p topic, "
+                "{pub} with attachment lists (noecho / head variants) by each of them, by a root session on behalf of members and outsiders, and to 'sys' by users without a subscription, "
+                "the k-th adapter call of the request made to fail (SubsUpdate and FileLinkAttachments at least once per history), memverif's log of the adapter calls of every publish compared with the call log of the Save model, "
+                "upload records aged past the grace period followed by the garbage collector's own call DeleteUnused(now - 1h, limit), dumps after every step; "
                 "the statements of the real MySQL adapter for GC / linking / FinishUpload executed on sqlite over enumerated tables of up to 3 uploads (old / new, 7 link sets each) x 6 (bound, limit) pairs; "
-                "non-trivial = an id was extracted / a request had an effect / a history operation ran" % (7 if quick else 11, 12 if quick else 400),
+                "non-trivial = an id was extracted / a request had an effect / a history operation ran" % (7 if quick else 11, 12 if quick else 400, 8 if quick else 250),
         "samples": [{"case": lines[i][:300], "impl": impl[i][:300]} for i in ([i for i in (1, 2, 3) if i < len(lines)] + ctx.rng.sample(range(len(lines)), min(6, len(lines))))],
         "traces_validated_against_impl": len(lines), "correspondence_mismatches": len(mism),
         "monitor_failures": len(fails), "search_pool": searched,
@@ -1165,7 +1345,8 @@ def run(ctx):
             "harness/overlay/server/db/mysql/zz_verif_c16_test.go (recording database/sql driver: statement texts and arguments of the REAL MySQL adapter's FileDeleteUnused / FileLinkAttachments / FileFinishUpload) + python sqlite3 as the SQL engine standing in for MySQL for these statements, tables with the foreign keys of adapter.go:526-555 written by hand in tools/props/c16.py; the message / topic / user deletion statements (MySQL multi-table DELETE, ON DELETE CASCADE) are NOT executed",
             "harness/overlay/server/zz_verif_c16_test.go (builds the HTTP requests, observes memverif's tables and the upload directory before/after each request, calls the real handlers; a stub media handler overrides only Headers())",
             "harness/overlay/server/db/memverif (in-memory adapter with the MySQL adapter's file/link semantics: modelled from db/mysql/adapter.go:3171-3396, not verified)",
-            "harness/runner/r_c16.ml glue: text of a placement kind -> constructor (valid key / good token / bad signature ...), upload k <-> model id",
+            "harness/runner/r_c16.ml glue: text of a placement kind -> constructor (valid key / good token / bad signature ...), upload k <-> model id; for PUBX lines: the sender's (want, given) taken from the MEMBER / P2P / TOPIC lines (the mode algebra itself is C05/C07's), position k of the failing adapter call -> fault plan of the Save model, model time = sum of the AGE lines",
+            "harness/overlay/server/zz_verif_c16b_test.go (sender-mode part of the driver: builds the {sub}/{set}/{pub} requests, reads memverif's call log and subscription rows) and memverif.AgeFilesC16b (moves updatedat of the upload records back)",
             "tools/props/c16.py law monitors (python restatement of the theorems, evaluated on the implementation's answers)",
             "outside the model: bytes on disk, http.DetectContentType, http.ServeContent, multipart parsing, MaxBytesReader (checked by the correspondence only)",
             "FinishUpload / StartUpload store failures are injected through memverif.SetFault; a media handler that is not configured is obtained by UseMediaHandler of an unknown name (recovered)",
